@@ -1035,6 +1035,7 @@ type GenOpts struct {
 	MixedDenom   bool // in a fifth of the cases the minting denom has upper-case letters ("uUSDC")
 	ManyUsed     bool // an eighth of the cases start with 101..130 used nonces (more than one default query page)
 	ShortToken   bool // a third of the cases link (through genesis only) a pair whose remote token has 20 bytes
+	ManyRegistry bool // in a tenth of the cases one registry (attesters, limits, pairs, messengers) starts with 101..115 entries
 	AbsentOpt    bool // in a sixth of the cases optional genesis fields (flags, body size, counter, threshold) are left out
 	CaseLimits   bool // in a quarter of the cases a second burn limit exists for the upper-cased denom, with another amount
 	Decoys       bool // in a quarter of the cases the attester registry also holds odd entries (empty, truncated, non-hex)
@@ -1123,6 +1124,27 @@ func (g *G) drawGenesis(o GenOpts) *GenSpec {
 	}
 	if rapid.IntRange(0, 2).Draw(t, "haslimit") == 0 {
 		gs.Limits = append(gs.Limits, LimitSpec{Denom: strings.ToLower(denom), Amount: rapid.SampledFrom([]string{"1", "1000", "1000000", "18446744073709551616"}).Draw(t, "limit")})
+	}
+	if o.ManyRegistry && rapid.IntRange(0, 9).Draw(t, "manyreg") == 0 {
+		k := rapid.IntRange(101, 115).Draw(t, "manyregn")
+		switch rapid.IntRange(0, 3).Draw(t, "manyregwhich") {
+		case 0:
+			for i := 0; i < k; i++ {
+				gs.Attesters = append(gs.Attesters, fmt.Sprintf("04%0128x", 1000+i)) // well-formed entries that are nobody's key
+			}
+		case 1:
+			for i := 0; i < k; i++ {
+				gs.Limits = append(gs.Limits, LimitSpec{Denom: fmt.Sprintf("udenom%03d", i), Amount: fmt.Sprint(i + 1)})
+			}
+		case 2:
+			for i := 0; i < k; i++ {
+				gs.Pairs = append(gs.Pairs, PairSpec{Domain: 77, Token: Hex(attest.Keccak([]byte{byte(i), 'b'})), Local: denom})
+			}
+		default:
+			for i := 0; i < k; i++ {
+				gs.Messengers = append(gs.Messengers, MsgrSpec{Domain: uint32(5000 + i), Addr: Hex(Pad32([]byte{byte(i), 1}))})
+			}
+		}
 	}
 	if o.CaseLimits && rapid.IntRange(0, 3).Draw(t, "caselimits") == 0 {
 		if len(gs.Limits) == 0 {
